@@ -17,7 +17,7 @@ PROP = 'C05'
 LEVEL = 'exploration'
 RULE = ('family circuits (T1 wave subset, T2 slice, T3 small, T4, T5) x ALL stimuli over {0,1,R,F}^n with transition times from {1,3} x delay plans (unit, zero, four-valued, '
         'deviating lines) x capacities {16, 4} x {c_reuse} x {strip_forks} on both simulators; oracle: s[3]/s[6] == initial/final component of the 8-valued result at every output and '
-        'state element; plain 0/1 => s[4]==TMAX, s[5]==TMIN and no finite entry in the waveform (every line when memory reuse is off); '
+        'state element, in the first clock cycle and (circuits with state elements, settled capture) in a second one that both simulators derive themselves with s_ppo_to_ppi; plain 0/1 => s[4]==TMAX, s[5]==TMIN and no finite entry in the waveform (every line when memory reuse is off); '
         'distinct_nontrivial = distinct (case, 8-valued output vector) signatures containing at least one R/F/P/N')
 ASSUMPTIONS = ['LogicSim(m=8) is tied to the documented algebra by C02; here the two real implementations are compared with each other',
                'dyadic times and delays']
